@@ -249,6 +249,26 @@ func harnesses(r *fw.Run) []fw.HarnessSpec {
 				}
 			}
 		}
+		// the bytes a type's own MarshalJSON returned stay what they were when the same method is called for another value
+		if m, ok := v.Addr().Interface().(json.Marshaler); ok && !g.Lenient {
+			var b1 []byte
+			if !c.Try("panic:MarshalJSON-direct:"+e.Name, func() { b1, err = m.MarshalJSON() }) && err == nil && len(b1) > 0 {
+				keep := append([]byte{}, b1...)
+				fg := &gen.G{C: enum.NewFixedCtx(func(n int, free bool) int { return n - 1 }), Seed: seed + 5, Enums: registry.Enums}
+				func() {
+					defer func() { _ = recover() }()
+					ov := fg.Make(e.Type, "")
+					if om, ok := ov.Addr().Interface().(json.Marshaler); ok {
+						_, _ = om.MarshalJSON()
+						_, _ = om.MarshalJSON()
+					}
+				}()
+				if string(b1) != string(keep) {
+					c.Fail("marshal-result-changes-later:"+e.Name, "the bytes returned by MarshalJSON changed after MarshalJSON of another value: %s became %s", trunc(string(keep)), trunc(string(b1)))
+					return
+				}
+			}
+		}
 		c.Outcome("ok")
 		// malformed documents derived from this one
 		if len(doc) <= 200 {
